@@ -321,3 +321,85 @@ def pending_reset_order(ctx):
                       'not insert yet) is discarded, its position falls behind the encoder\'s read position' % w['pending'])
     else:
         ctx.ok(key, f.loc(replay[0]), '`%s` is cleared before the replay call and not stored afterwards' % w['pending'])
+
+
+# --------------------------------------------------------------------------- FULL-TRACKS-POS
+
+@rule('FULL-TRACKS-POS', ['C01', 'C02'], floor=3)
+def full_tracks_pos(ctx):
+    """The LZ decoder window keeps `full` = number of valid dictionary bytes; `repeat` rejects distances >= full.
+    Every method that advances the write position therefore raises `full` to the new position before it returns:
+    on each path from a store `pos := pos + n` to the return there is a comparison of `full` with `pos` that is
+    evaluated AFTER the store (the `if self.full < self.pos { self.full = self.pos }` tail). If the comparison
+    runs before the position moves, `full` lags behind by the last piece and a valid match reaching back to the
+    start of the dictionary right after a stored chunk is rejected ("dist overflow")."""
+    F = ctx.facts
+    n = 0
+    for f in F.fns:
+        if not (f.self_adt and last_seg(f.self_adt) == 'LZDecoder' and f.kind != 'closure'):
+            continue
+        prov = Prov(f)
+        adv = []
+        for bi, si, fld, e in _self_stores(f, prov):
+            if fld != 'pos':
+                continue
+            if e[0] == 'const':
+                continue   # wrap to 0 / reset
+            if _mentions_field(e, 'pos'):
+                adv.append((bi, si))
+        if not adv:
+            continue
+        n += 1
+        key = '%s:full-raised-after-the-position-moved' % f.key
+        # comparison blocks: switches whose condition reads both `full` and `pos`
+        cmpb = set()
+        for b in f.reachable:
+            t = f.blocks[b]['term']
+            if t['k'] != 'switch':
+                continue
+            c = prov.operand(t['discr'], 0, '%d:T' % b)
+            if _mentions_field(c, 'full') and _mentions_field(c, 'pos'):
+                cmpb.add(b)
+        bad = None
+        exc = None
+        for bi, si in adv:
+            # a comparison later in the same block counts only if its operands are loaded after the store: MIR loads the
+            # operands in the block of the switch, so "same block" means the loads follow the store textually
+            same = False
+            if bi in cmpb:
+                loads = [k for k, s in enumerate(f.blocks[bi]['stmts']) if s['k'] == 'assign' and s['rv']['r'] == 'use' and
+                         (op_place(s['rv']['o']) or {}).get('l') == 1 and 'pos' in str(field_path(op_place(s['rv']['o'])))]
+                same = any(k > si for k in loads)
+            if same:
+                continue
+            free = f.reach_from(f.succs(bi), stop=cmpb)
+            rets = [b for b in free if f.blocks[b]['term']['k'] == 'return']
+            # the wrap-around branch of `repeat`: the distance reaches behind position 0, which can only happen when the
+            # dictionary is full (full == buf_size, asserted there in debug builds), so `full` cannot lag. Recognised by its
+            # guard `pos < dist + 1` on every such early return; the store itself must be under the same guard.
+            def wrap_guarded(b):
+                for sb, pol, cond in guards_of(f, b, prov):
+                    nc = norm_cmp(cond, pol) if cond[0] in ('bin', 'un') else None
+                    if nc and nc[0] == 'Lt' and _mentions_field(nc[1], 'pos') and any(x[0] == 'param' for x in expr_walk(nc[2])):
+                        return True
+                return False
+            # early returns are assignments of _0 followed by gotos to the common return block: look at the blocks that
+            # build the return value on the comparison-free paths
+            early = [b for b in free for st in f.blocks[b]['stmts'] if st['k'] == 'assign' and st['lhs']['l'] == 0 and not st['lhs']['p']]
+            if rets and early and all(wrap_guarded(b) for b in early) and wrap_guarded(bi):
+                exc = (bi, si)
+                continue
+            if rets:
+                bad = (bi, si)
+                break
+        if bad:
+            ctx.violation(key, f.loc(*bad), 'the write position is advanced at %s and a path reaches the return without comparing `full` with the new '
+                          'position: `full` lags behind, and a valid distance that reaches the start of what was just written is rejected' % f.loc(*bad))
+        elif exc:
+            ctx.exception(key, f.loc(*exc), '%d store(s) advancing pos; every path to the return compares full with pos afterwards, except the early '
+                          'return of the wrap-around branch (guard pos < dist + 1: the distance reaches behind position 0, only possible when '
+                          'the dictionary is full, so full == buf_size already; debug_assert in the source)' % len(adv))
+        else:
+            ctx.ok(key, f.loc(adv[0][0], adv[0][1]), '%d store(s) advancing pos; every path to the return compares full with pos afterwards' % len(adv))
+    if not n:
+        ctx.anchor_missing('LZDecoder methods that advance pos')
